@@ -186,7 +186,15 @@ func (fr *frame) stmt(ps []path, s ast.Stmt) []path {
 		return ps
 
 	case *ast.AssignStmt:
-		fr.checkAlias(s.Rhs)
+		if len(s.Lhs) == len(s.Rhs) {
+			for i, r := range s.Rhs {
+				if !isIdentNamed(s.Lhs[i], "_") { // `_ = b.ts` creates no alias
+					fr.checkAlias([]ast.Expr{r})
+				}
+			}
+		} else {
+			fr.checkAlias(s.Rhs)
+		}
 		ev := fr.exprs(s.Rhs)
 		for _, l := range s.Lhs {
 			ev = a.seq(l.Pos(), ev, fr.lhs(l, s.Tok != token.ASSIGN && s.Tok != token.DEFINE))
